@@ -293,6 +293,24 @@ import datetime as _dtmod
 from harness.dtmodel import SymDatetime, valid_day
 
 
+def body_if_range(I, X, n=2, skel="{}"):
+    """If-Range with an entity-tag: IfRange(etag).to_header() parsed back gives that tag and no
+    date, also for tags that look like an HTTP date"""
+    from werkzeug import http
+    from werkzeug.datastructures import IfRange
+
+    t = X.str("tag", n, minlen=n, maxcp=0xFF)
+    X.assume(pall_in(t, [(0x20, 0x7E), (0xA0, 0xFF)]))
+    X.assume(pnone_in(t, [0x22]))
+    pre, _, post = skel.partition("{}")
+    tag = pconcat(pre, t, post)
+    X.assume(plen(tag) > 0)
+    hdr = I.call(IfRange(tag).to_header, ())
+    back = I.call(http.parse_if_range_header, (hdr,))
+    ok = pand(back.date is None, back.etag is not None and peq(back.etag, tag))
+    return ok, {"header": hdr, "etag": back.etag, "has_date": back.date is not None}
+
+
 def body_basic_auth(I, X, nu=1, npw=2):
     """Basic credentials: Authorization('basic', user, password).to_header() parsed back by
     Authorization.from_header gives the same user and password (UTF-8, base64 exact model);
@@ -349,6 +367,10 @@ def make_stubs():
 
 def obligations(tier, seed):
     out = []
+    for skel, ns in (("{}", [0, 1, 2, 3]), ("Thu, 01 Jan 1970 00:00:{} GMT", [2]), ("1 Jan {} 0:0", [2, 4])):
+        for n in ns:
+            out.append({"name": f"if_range[{skel},n={n}]", "body": "body_if_range", "params": {"n": n, "skel": skel},
+                        "opts": {"budget_s": 900, "ctx": {"max_cp": 0xFF, "bv_ints": True, "max_digits": 6}}})
     for nu, npw in ([(1, 1), (1, 2), (2, 1), (0, 2)] if tier == "quick" else [(a, b) for a in range(0, 4) for b in range(0, 4)]):
         out.append({"name": f"basic_auth[user={nu},password={npw}]", "body": "body_basic_auth", "params": {"nu": nu, "npw": npw},
                     "opts": {"budget_s": 900, "ctx": {"max_cp": 0x7FF}}})
